@@ -511,9 +511,12 @@ func Eval(g *gmodel.Graph, p []Step) Result {
 				}
 			} else {
 				for _, id := range s.Strs {
-					if e, ok := g.E[id]; ok {
-						ee := e
-						next = append(next, rows[0].withCur(&ee))
+					// by element id, not by map key: a multigraph fixture may hold several edges with one id
+					for _, e := range sortedEdges(g) {
+						if e.ID == id {
+							ee := e
+							next = append(next, rows[0].withCur(&ee))
+						}
 					}
 				}
 			}
